@@ -39,6 +39,7 @@ Record obs := {
 Record case := {
   c_cfg : config;
   c_fx : bool;                          (* which claimAffineBlock the tree has (probed by the driver): see ModelV.v *)
+  c_fy : bool;                          (* which releaseByHandle the tree has (probed by the driver): see ModelV.v *)
   c_clients : list (N * list op);       (* host, operations *)
   c_obs : list obs;
   c_final : list (key * value)          (* datastore contents at the end *)
@@ -87,7 +88,7 @@ Definition client_step := @Cas.client_step key value lopt key_eqb key_ltb lmatch
 
 Definition set_client (cls : list client) (i : nat) (c : client) : list client := set_nth_opt cls i c.
 
-Definition model_step (cf : config) (fx : bool) (s : store) (cls : list client) (o : obs) : option (store * list client) :=
+Definition model_step (cf : config) (fx fy : bool) (s : store) (cls : list client) (o : obs) : option (store * list client) :=
   match nth_error cls (o_client o) with
   | Some cl =>
     if cl_crashed cl then None else
@@ -108,7 +109,7 @@ Definition model_step (cf : config) (fx : bool) (s : store) (cls : list client) 
           | _ => None
           end
       | CRun p' =>
-          let '(cur, todo, done) := settle_v cf fx (S (length (cl_todo cl))) (cl_host cl) p' (cl_todo cl) [] in
+          let '(cur, todo, done) := settle_w cf fx fy (S (length (cl_todo cl))) (cl_host cl) p' (cl_todo cl) [] in
           if list_eqb result_eqb done (o_done o)
           then Some (s', set_client cls (o_client o)
                       {| cl_host := cl_host cl; cl_cur := cur; cl_todo := todo; cl_crashed := false |})
@@ -119,11 +120,11 @@ Definition model_step (cf : config) (fx : bool) (s : store) (cls : list client) 
   | None => None
   end.
 
-Fixpoint model_run (cf : config) (fx : bool) (s : store) (cls : list client) (os : list obs) : option (store * list client) :=
+Fixpoint model_run (cf : config) (fx fy : bool) (s : store) (cls : list client) (os : list obs) : option (store * list client) :=
   match os with
   | [] => Some (s, cls)
-  | o :: t => match model_step cf fx s cls o with
-              | Some (s', cls') => model_run cf fx s' cls' t
+  | o :: t => match model_step cf fx fy s cls o with
+              | Some (s', cls') => model_run cf fx fy s' cls' t
               | None => None
               end
   end.
@@ -132,7 +133,7 @@ Definition store_dump (s : store) : list (key * value) := map (fun e => (e_key e
 
 Definition model_agrees (c : case) : bool :=
   let cf := c_cfg c in
-  match model_run cf (c_fx c) init_store (map (fun hc => start_client_v cf (c_fx c) (fst hc) (snd hc)) (c_clients c)) (c_obs c) with
+  match model_run cf (c_fx c) (c_fy c) init_store (map (fun hc => start_client_w cf (c_fx c) (c_fy c) (fst hc) (snd hc)) (c_clients c)) (c_obs c) with
   | Some (s, _) => list_eqb (fun a b => key_eqb (fst a) (fst b) && value_eqb (snd a) (snd b)) (store_dump s) (c_final c)
   | None => false
   end.
@@ -343,12 +344,12 @@ Definition ok_trace (c : case) : bool :=
 Definition check_case (c : case) : bool * bool := (model_agrees c, ok_trace c).
 
 (* debugging aid: index of the first observation the model cannot follow, with the request the model wanted *)
-Fixpoint model_first_bad (cf : config) (fx : bool) (s : store) (cls : list client) (os : list obs) (i : nat)
+Fixpoint model_first_bad (cf : config) (fx fy : bool) (s : store) (cls : list client) (os : list obs) (i : nat)
   : option (nat * option (Cas.req key value lopt)) :=
   match os with
   | [] => None
-  | o :: t => match model_step cf fx s cls o with
-              | Some (s', cls') => model_first_bad cf fx s' cls' t (S i)
+  | o :: t => match model_step cf fx fy s cls o with
+              | Some (s', cls') => model_first_bad cf fx fy s' cls' t (S i)
               | None => Some (i, match nth_error cls (o_client o) with
                                  | Some cl => match cl_cur cl with Some (Act rq _) => Some rq | _ => None end
                                  | None => None end)
@@ -356,8 +357,8 @@ Fixpoint model_first_bad (cf : config) (fx : bool) (s : store) (cls : list clien
   end.
 Definition first_bad (c : case) :=
   let cf := c_cfg c in
-  model_first_bad cf (c_fx c) init_store (map (fun hc => start_client_v cf (c_fx c) (fst hc) (snd hc)) (c_clients c)) (c_obs c) 0.
+  model_first_bad cf (c_fx c) (c_fy c) init_store (map (fun hc => start_client_w cf (c_fx c) (c_fy c) (fst hc) (snd hc)) (c_clients c)) (c_obs c) 0.
 Definition final_model (c : case) :=
   let cf := c_cfg c in
-  match model_run cf (c_fx c) init_store (map (fun hc => start_client_v cf (c_fx c) (fst hc) (snd hc)) (c_clients c)) (c_obs c) with
+  match model_run cf (c_fx c) (c_fy c) init_store (map (fun hc => start_client_w cf (c_fx c) (c_fy c) (fst hc) (snd hc)) (c_clients c)) (c_obs c) with
   | Some (s, _) => store_dump s | None => [] end.
